@@ -1,21 +1,21 @@
 SPECIFICATION Spec
 CONSTANT Cfg <- MCCfg2s
-CONSTANT MaxWalls = 2
+CONSTANT MaxWalls = 1
 CONSTANT Limits = {2}
 CONSTANT PostSteps = 1
 CONSTRAINT Bounded
 INVARIANT TypeOK
 INVARIANT InitWellFormed
 INVARIANT Protocol
-INVARIANT LegalIffSomethingMoves
 INVARIANT PhysOK
-INVARIANT Total
-INVARIANT PushRule
 INVARIANT RewardRange
 INVARIANT BonusIffSolved
 INVARIANT SolvedEnds
 INVARIANT EndsExactlyAtLimit
 INVARIANT ObsFaithful
 PROPERTY InvalidNoEffect
+PROPERTY LegalIffSomethingMoves
 PROPERTY Conserved
+PROPERTY PushRule
+VIEW View
 CHECK_DEADLOCK FALSE
